@@ -6,7 +6,7 @@ cd /verif
 git -C /repo diff --quiet || { echo "/repo not clean"; exit 2; }
 git -C /repo apply "$PATCH" || { echo "patch does not apply"; exit 2; }
 (cd /repo && GOFLAGS=-mod=mod GOPROXY=off GOSUMDB=off go build ./... 2>&1 | grep -v "ld: \|^#" | head -5)
-./check "$P" --tier "$TIER" 2>&1 | grep -v "^KNOWN-FINDING" | cut -c1-400 | tail -8
+VERIF_EVIDENCE_DIR=/verif/.work/evidence_mut ./check "$P" --tier "$TIER" 2>&1 | grep -v "^KNOWN-FINDING" | cut -c1-400 | tail -8
 echo "exit=$?"
 git -C /repo checkout -- . ; git -C /repo clean -fdq -- . 2>/dev/null
 git -C /repo status --short | head -3
